@@ -69,6 +69,9 @@ pub enum ROp {
     CancelNewest,
     /// a plain `send` (movable atomic channel: only while this thread has no reservation outstanding)
     PlainSend,
+    /// ONE `try_cancel_slot_reserve` attempt on my newest outstanding reservation: if it answers false (another thread
+    /// took a newer slot meanwhile) the reservation stays and is sent later
+    TryCancelNewestOnce,
 }
 
 #[derive(Clone, Copy, Debug, PartialEq, Eq)]
@@ -307,6 +310,23 @@ pub fn reserver_thread(ch: ChanArc, shared: Arc<Mutex<Shared>>, t: usize, ops: V
                         continue;
                     }
                     resolve(&ch, &shared, r, true);
+                }
+            }
+            ROp::TryCancelNewestOnce => {
+                if let Some(r) = out.pop() {
+                    if r.filled {
+                        out.push(r);
+                        continue;
+                    }
+                    ctx::op_mark("try_cancel_slot_reserve[one attempt]");
+                    let ok = ch.cancel_reserved(r.slot);
+                    ctx::op_mark("");
+                    ctx::trace(|| format!("reserver {} tried to cancel {:#x}: {}", t, r.id, ok));
+                    if ok {
+                        push(&shared, r.id, r.inv, false, Entry::Reserve);
+                    } else {
+                        out.push(r);
+                    }
                 }
             }
             ROp::PlainSend => {
